@@ -96,9 +96,9 @@ fn four_archives(dir: &Path) -> Result<Universe, String> {
     // overlapping and disjoint names, case variants and (at query time) slash variants
     let names: [&[&str]; 4] = [
         &["common.txt", "Data\\Shared.bin", "only0.txt", "dir\\File.TXT", "pair01.dat"],
-        &["common.txt", "DATA\\SHARED.BIN", "only1.txt", "pair01.dat", "pair12.dat"],
-        &["Common.TXT", "data\\shared.bin", "only2.txt", "pair12.dat", "Pair23.DAT"],
-        &["common.txt", "only3.txt", "dir\\file.txt", "pair23.dat"],
+        &["common.txt", "DATA\\SHARED.BIN", "only1.txt", "pair01.dat", "pair12.dat", "Sound\\Música\\tema_día.mp3"],
+        &["Common.TXT", "data\\shared.bin", "only2.txt", "pair12.dat", "Pair23.DAT", "Sound\\Música\\tema_día.mp3", "Fonts\\шрифт.ttf"],
+        &["common.txt", "only3.txt", "dir\\file.txt", "pair23.dat", "Straße\\größe.txt"],
     ];
     let specs = names.iter().enumerate().map(|(i, ns)| ns.iter().map(|n| (n.to_string(), content_for(i, n))).collect()).collect();
     Universe::build(dir, "a", specs, &["nosuch.txt", "common.tx", "only4.txt", "Data\\Shared.bi", "dir\\", "ommon.txt"])
@@ -517,6 +517,110 @@ fn run_parallel_case(c: &mut Case, uni: &Universe, inputs: &[(usize, i32)], api:
     }
 }
 
+/// A load in which one input cannot be opened. The statement fixes what lookups return for the archives *in* the chain;
+/// which of a failed batch's archives are in the chain afterwards is taken from the chain's own answer
+/// (`get_priority` per path) — atomic or partial, both are accepted — and every observable must then agree with it.
+#[allow(clippy::too_many_arguments)]
+fn run_failed_load_case(c: &mut Case, uni: &Universe, perm: &[usize], asg: &[i32; 4], api: &str, prefix: usize, pos: usize, bkind: &str, bpath: &Path) {
+    let ctx = format!("api={api}|failed-load");
+    let inputs: Vec<(usize, i32)> = perm.iter().map(|a| (*a, asg[*a])).collect();
+    let mut chain = PatchChain::new();
+    let mut model = Model::default();
+    for (a, p) in &inputs[..prefix] {
+        if chain.add_archive(&uni.arcs[*a].path, *p).is_err() {
+            c.violate(format!("chain-op|add-archive-failed|{ctx}"), "add_archive failed on an existing archive".to_string(), json!({}));
+            return;
+        }
+        model.add(*a, *p);
+    }
+    let rest = &inputs[prefix..];
+    let mut batch: Vec<(PathBuf, i32, Option<usize>)> = rest.iter().map(|(a, p)| (uni.arcs[*a].path.clone(), *p, Some(*a))).collect();
+    let at = pos.min(batch.len());
+    batch.insert(at, (bpath.to_path_buf(), 3, None));
+    let step = json!({"api": api, "bad": bkind, "batch": batch.iter().map(|(p, pr, _)| format!("{}@{pr}", p.file_name().map(|n| n.to_string_lossy().to_string()).unwrap_or_default())).collect::<Vec<_>>()});
+    c.count(&format!("failed_loads|{api}|{bkind}"), 1);
+    match api {
+        "from_archives_parallel" => {
+            let all: Vec<(PathBuf, i32)> = inputs[..prefix].iter().map(|(a, p)| (uni.arcs[*a].path.clone(), *p)).chain(batch.iter().map(|(p, pr, _)| (p.clone(), *pr))).collect();
+            match trap(|| PatchChain::from_archives_parallel(all)) {
+                Err(p) => c.violate(format!("chain-op|panic|{}|{ctx}", p.func), format!("from_archives_parallel panicked on an unopenable input: {}", p.msg), step.clone()),
+                Ok(Err(_)) => c.count("failed_load_reported", 1),
+                Ok(Ok(mut ch)) => {
+                    // the statement does not forbid skipping what cannot be opened; the chain must then behave as the chain of the rest
+                    c.count("failed_load_accepted", 1);
+                    let mut m2 = Model::default();
+                    for (a, p) in &inputs {
+                        if ch.get_priority(&uni.arcs[*a].path).is_some() {
+                            m2.add(*a, *p);
+                        }
+                    }
+                    compare_all(c, &mut ch, &m2, uni, &ctx, &step);
+                }
+            }
+            return;
+        }
+        "add_archives_parallel" => {
+            let r = trap(|| chain.add_archives_parallel(batch.iter().map(|(p, pr, _)| (p.clone(), *pr)).collect::<Vec<_>>()));
+            match r {
+                Err(p) => {
+                    c.violate(format!("chain-op|panic|{}|{ctx}", p.func), format!("add_archives_parallel panicked on an unopenable input: {}", p.msg), step.clone());
+                    return;
+                }
+                Ok(Err(_)) => c.count("failed_load_reported", 1),
+                Ok(Ok(())) => c.count("failed_load_accepted", 1),
+            }
+        }
+        _ => {
+            for (p, pr, _) in &batch {
+                match trap(|| chain.add_archive(p, *pr)) {
+                    Err(pn) => {
+                        c.violate(format!("chain-op|panic|{}|{ctx}", pn.func), format!("add_archive panicked on an unopenable input: {}", pn.msg), step.clone());
+                        return;
+                    }
+                    Ok(Err(_)) => c.count("failed_load_reported", 1),
+                    Ok(Ok(())) => {}
+                }
+            }
+        }
+    }
+    // membership as the chain reports it, in input order
+    for (_, pr, a) in &batch {
+        if let Some(a) = a {
+            if chain.get_priority(&uni.arcs[*a].path).is_some() {
+                model.add(*a, *pr);
+            }
+        }
+    }
+    c.count("failed_load_members_after", model.entries.len() as u64);
+    compare_all(c, &mut chain, &model, uni, &ctx, &json!({"after": "failed load", "load": step}));
+    if !c.viol.is_empty() {
+        return;
+    }
+    // the chain stays usable: the remaining archives one by one, then a removal
+    for (a, p) in &inputs {
+        if !model.has(*a) {
+            match trap(|| chain.add_archive(&uni.arcs[*a].path, *p)) {
+                Ok(Ok(())) => model.add(*a, *p),
+                Ok(Err(e)) => {
+                    c.violate(format!("chain-op|add-archive-failed|{ctx}"), format!("add_archive(A{a}) failed after a failed load: {e}"), step.clone());
+                    return;
+                }
+                Err(pn) => {
+                    c.violate(format!("chain-op|panic|{}|{ctx}", pn.func), format!("add_archive panicked after a failed load: {}", pn.msg), step.clone());
+                    return;
+                }
+            }
+            compare_all(c, &mut chain, &model, uni, &ctx, &json!({"after": format!("add(A{a}) following the failed load"), "load": step}));
+        }
+    }
+    let victim = inputs[0].0;
+    let want = model.remove(victim);
+    match trap(|| chain.remove_archive(&uni.arcs[victim].path)) {
+        Ok(Ok(b)) if b == want => compare_all(c, &mut chain, &model, uni, &ctx, &json!({"after": format!("remove(A{victim}) following the failed load"), "load": step})),
+        other => c.violate(format!("chain-op|remove-after-failed-load|{ctx}"), format!("remove_archive(A{victim}) after a failed load: {:?}", other.map(|r| r.map_err(|e| e.to_string())).map_err(|p| p.msg)), step.clone()),
+    }
+}
+
 fn record_events(st: &mut ParStats, api: &str, ev: &[wow_mpq::verif_hooks::TaskEvent], inputs: &[(PathBuf, i32)]) {
     let opens: Vec<&wow_mpq::verif_hooks::TaskEvent> = ev.iter().filter(|e| e.kind == "open").collect();
     if opens.is_empty() {
@@ -682,6 +786,37 @@ fn mode_chain(run: &mut Run) {
             let class = format!("H12|{}", ops.iter().map(|o| &op_kind(o)[..1]).collect::<String>());
             let desc = json!({"history": ops.iter().map(op_json).collect::<Vec<_>>()});
             run.case(i, &class, desc, |c| run_history(c, &uni, &ops, &mut shapes));
+        }
+    }
+    idx += 500;
+    // ---- loads that fail: an archive that cannot be opened among the inputs (sequential add, parallel batch, parallel construction)
+    {
+        let bad_missing = dir.join("no-such-archive.mpq");
+        let bad_garbage = dir.join("garbage.mpq");
+        let _ = std::fs::write(&bad_garbage, b"this is not an MPQ archive, only some text that is longer than a header would be ................................");
+        let bad_dir = dir.join("a-directory.mpq");
+        let _ = std::fs::create_dir_all(&bad_dir);
+        let bads = [("missing", bad_missing), ("garbage", bad_garbage), ("directory", bad_dir)];
+        let apis = ["add_archive", "add_archives_parallel", "from_archives_parallel"];
+        let mut k = 0u64;
+        for (pi, perm) in perms.iter().enumerate() {
+            for api in apis {
+                for (bi, (bkind, bpath)) in bads.iter().enumerate() {
+                    for pos in 0..3usize {
+                        let i = idx + k;
+                        k += 1;
+                        // quick: a third of the product, chosen by index; thorough: all of it
+                        if !run.want(i) || (!thorough && (pi + bi + pos) % 3 != 0) {
+                            continue;
+                        }
+                        let asg = assigns[(pi * 7 + bi * 3 + pos) % assigns.len()];
+                        let prefix = (pi + pos) % 3;
+                        let class = format!("F|{api}|bad={bkind}|pos={pos}|prefix={prefix}|order={}", perm.iter().map(|x| x.to_string()).collect::<String>());
+                        let desc = json!({"api": api, "bad_input": bkind, "bad_position_in_batch": pos, "sequential_prefix": prefix, "order": perm, "priorities": asg});
+                        run.case(i, &class, desc, |c| run_failed_load_case(c, &uni, perm, &asg, api, prefix, pos, bkind, bpath));
+                    }
+                }
+            }
         }
     }
     run.extra("final_chain_shapes", json!(shapes.into_iter().collect::<Vec<_>>()));
@@ -862,7 +997,97 @@ fn isolated_case(c: &mut Case, m: &Value) {
     run_corrupt(c, &ptype, jstr(mu, "r"), &q, &base);
 }
 
+/// Archives with patch entries come and go between reads; the expectation of every step is computed by the corpus
+/// generator from the statement (lib/props/c08.py: hist_expect).
+fn history_case(c: &mut Case, m: &Value) {
+    let name = jstr(m, "name").to_string();
+    let arcs: Vec<(PathBuf, i32, String)> = m["archives"].as_array().map(|v| v.iter().map(|a| (PathBuf::from(jstr(a, "path")), a["prio"].as_i64().unwrap_or(0) as i32, jstr(a, "role").to_string())).collect()).unwrap_or_default();
+    let mut chain = PatchChain::new();
+    let mut seen: Vec<Vec<u8>> = Vec::new();
+    let mut prev_op = "start".to_string();
+    c.count("patch_histories", 1);
+    for (k, st) in m["steps"].as_array().map(|v| v.as_slice()).unwrap_or(&[]).iter().enumerate() {
+        let ai = st["arc"].as_u64().unwrap_or(0) as usize;
+        let Some((path, prio, role)) = arcs.get(ai) else { continue };
+        let op = jstr(st, "op");
+        let detail = json!({"step": k, "op": op, "archive": role, "steps": m["steps"], "archives": m["archives"], "name": name});
+        let r = trap(|| -> wow_mpq::Result<()> {
+            if op == "add" { chain.add_archive(path, *prio) } else { chain.remove_archive(path).map(|_| ()) }
+        });
+        match r {
+            Ok(Ok(())) => {}
+            Ok(Err(e)) => {
+                c.violate(format!("chain-history|op-failed|{op}"), format!("{op}({role}) failed on a reference-written archive: {e}"), detail);
+                return;
+            }
+            Err(p) => {
+                c.violate(format!("chain-history|op-panic|{}", site(&p.func)), format!("{op}({role}) panicked: {}", p.msg), detail);
+                return;
+            }
+        }
+        c.count(&format!("patch_history_op|{op}"), 1);
+        let kind = jstr(st, "kind");
+        let winner = jstr(st, "winner");
+        let expect = st["expect"].as_str().map(unhex);
+        for sp in m["lookups"].as_array().map(|v| v.as_slice()).unwrap_or(&[]) {
+            let sp = sp.as_str().unwrap_or("");
+            c.count("patch_history_reads", 1);
+            let r = match trap(|| chain.read_file(sp)) {
+                Ok(r) => r,
+                Err(p) => {
+                    c.violate(format!("patch-panic|chain-history|{}|{}", jstr(m, "sigtag"), site(&p.func)), format!("read_file through the chain panicked: {}", p.msg), detail.clone());
+                    continue;
+                }
+            };
+            let ctx = format!("after={op}|prev={prev_op}|winner={winner}");
+            match (kind, r) {
+                ("absent", Ok(b)) => {
+                    let stale = seen.contains(&b);
+                    c.violate(format!("chain-history|found-but-in-no-archive|{}|{ctx}", if stale { "earlier-result" } else { "other-bytes" }), format!("step {k}: read_file({sp:?}) returned {} bytes although no archive of the chain holds the name", b.len()), detail.clone());
+                }
+                ("absent", Err(_)) => c.count("patch_history_absent_ok", 1),
+                (_, Ok(b)) if Some(&b) == expect.as_ref() => {
+                    c.count(&format!("patch_history_equal|{winner}"), 1);
+                }
+                (_, Ok(b)) => {
+                    let stale = seen.contains(&b);
+                    c.violate(format!("chain-history|wrong-bytes|{}|{ctx}", if stale { "earlier-result" } else { "other-bytes" }),
+                              format!("step {k} ({op} {role}): read_file({sp:?}) returned {} bytes, differing from the version the chain now defines at offset {}{}", b.len(), first_diff(&b, expect.as_deref().unwrap_or(&[])), if stale { " — they equal the result of an earlier step" } else { "" }),
+                              detail.clone());
+                }
+                ("equal", Err(e)) => c.violate(format!("chain-history|error-for-present|{ctx}"), format!("step {k} ({op} {role}): read_file({sp:?}) failed although the chain holds everything the winner needs: {e}"), detail.clone()),
+                (_, Err(_)) => c.count("patch_history_gap_rejected", 1),
+            }
+        }
+        if let Some(e) = &expect {
+            if kind == "equal" && !seen.contains(e) {
+                seen.push(e.clone());
+            }
+        }
+        // contains / find_file_archive agree with the membership
+        c.count("patch_history_contains", 1);
+        if chain.contains_file(&name) == (kind == "absent") {
+            c.violate(format!("chain-history|contains|{}", if kind == "absent" { "true-for-absent" } else { "false-for-present" }), format!("step {k}: contains_file({name:?}) = {}", kind == "absent"), detail.clone());
+        }
+        // a regular file next to the patch entries follows the same membership
+        let on = jstr(m, "other_name");
+        if !on.is_empty() {
+            c.count("patch_history_regular_reads", 1);
+            let want = st["other_expect"].as_str().map(unhex);
+            let got = trap(|| chain.read_file(on)).ok().and_then(|r| r.ok());
+            if got != want {
+                c.violate(format!("chain-history|regular-file|{}|after={op}", if want.is_none() { "found-but-in-no-archive" } else if got.is_none() { "not-found" } else { "wrong-winner" }),
+                          format!("step {k}: read_file({on:?}) = {:?} bytes, expected {:?}", got.as_ref().map(|b| b.len()), want.as_ref().map(|b| b.len())), detail.clone());
+            }
+        }
+        prev_op = op.to_string();
+    }
+}
+
 fn chain_case(c: &mut Case, m: &Value) {
+    if jstr(m, "variant") == "history" {
+        return history_case(c, m);
+    }
     let name = jstr(m, "name").to_string();
     let variant = jstr(m, "variant").to_string();
     let api = jstr(m, "api").to_string();
